@@ -452,7 +452,7 @@ func NullableAltNotLast(g *Grammar) bool {
 }
 
 // HubLRGen draws one big left-recursive component with thousands of cycles (the analysis
-// enumerates them all): two hub rules H1 < H2 (by name), k = 9..11 rules P_i that refer
+// enumerates them all): two hub rules H1 < H2 (by name), k = 10..12 rules P_i that refer
 // forward to every later P_j, H1 <- P_i .., P_i <- .. / H2 .., H2 <- H1 x / W y / b,
 // W <- H2 z. Every cycle through the P_i passes both hubs; the short cycle H2 - W - H2 is the
 // only one that does not contain H1, so H2 is the one rule on every cycle (the leader) - a
@@ -460,7 +460,7 @@ func NullableAltNotLast(g *Grammar) bool {
 // dropped and the names vary, so that no two cases share their numbers.
 func HubLRGen() *rapid.Generator[*Grammar] {
 	return rapid.Custom(func(t *rapid.T) *Grammar {
-		k := 9 + U(t, 3, "hubk")
+		k := []int{10, 10, 10, 11, 11, 11, 12, 12}[U(t, 8, "hubk")]
 		h1, h2, w := "Access", "Value", "Wrap"
 		if U(t, 2, "hubnames") == 0 {
 			h1, h2, w = "A", "M", "Z"
@@ -480,7 +480,7 @@ func HubLRGen() *rapid.Generator[*Grammar] {
 		for i := 0; i < k; i++ {
 			var as []*Expr
 			for j := i + 1; j < k; j++ {
-				if U(t, 12, "dropedge") != 0 {
+				if U(t, 30, "dropedge") != 0 {
 					as = append(as, Seq(Ref(p(j)), tail("a")))
 				}
 			}
